@@ -41,5 +41,6 @@ std::string digest(const awkward::ContentPtr& c);
 std::string project(const awkward::ContentPtr& c, const rapidjson::Value& step);
 
 // builder / json / forth / virtual / partition ops; returns true when handled (out = result JSON)
+bool l2_ops(const std::string& op, const rapidjson::Value& st, Session& S, std::string& out);
 bool other_ops(const std::string& op, const rapidjson::Value& st, Session& S, std::string& out);
 #endif
